@@ -57,18 +57,32 @@ class C16(PropCheck):
               'From Elfi Require Import Base.Harness Num.Results.\nImport ListNotations.\nOpen Scope string_scope.\n')
     case_type = 'Results.case'
     preds = (('Results.agree', 'agree'), ('Results.ok', 'ok'))
-    chunk = 120
+    chunk = 80
     rule = ('Sample/SmcSample/BslSample built from known arrays with pairwise distinct entries, 1-4 parameters whose order differs '
             'from the insertion order of outputs, extra non-parameter outputs, weights or none; BolfiSample from (1-4 chains, N, 1-4 '
             'params) arrays with warm-up 0..N+1; gelman_rubin_statistic / eff_sample_size on 1-4 chains (mixed, shifted, trending, '
             'strongly disagreeing; data at unit scale and multiplied by 1e-7..1e-3 / 1e3..1e7, every style x scale pair in every run) '
             'plus affine copies a x + b with moderate a and with |a| in {1e-7,1e-6,1e-5,1e-3,1e3,1e5,1e6,1e7} and permuted copies; '
-            'python-side sweep of every case over all +-scales against the exact rational textbook values (relative 1e-6); non-trivial = sample with >=2 parameters listed in an order different from the outputs dict, or BOLFI sample '
-            'with >=2 chains and 0<warmup<N, or diagnostics with >=2 chains whose ESS loop adds >=1 term; distinct by input')
+            'python-side sweep of every case over all +-scales against the exact rational textbook values (relative 1e-6); '
+            'histories on ONE Sample/SmcSample/BslSample object: constructed with or without weights, then 1-4 rounds of assignments to the '
+            'public attributes (.weights rebound to an array / a list / None, written in place as a whole or in one entry, wrong-length and '
+            'zero-sum vectors followed by repairs; .samples[name] rebound or written in place) each followed by ALL summaries (n_samples, '
+            'samples_array, sample_means, sample_means_array, sample_means_and_95CIs, sample_quantiles at 5 levels), the first round with and '
+            'without an assignment before the first summary call; every round is judged against the CURRENT samples and weights (Coq: run of the '
+            'assignment list on the model object, then ok/agree; python: a Sample freshly constructed from the current values); real elfi.SMC '
+            'runs (2-4 rounds, 1-2 parameters): every population in SmcSample.populations and the final SmcSample against its own stored '
+            'samples and weights; '
+            'non-trivial = sample with >=2 parameters listed in an order different from the outputs dict, or BOLFI sample '
+            'with >=2 chains and 0<warmup<N, or diagnostics with >=2 chains whose ESS loop adds >=1 term, or a history in which unequal '
+            'well-formed weights are assigned after construction, or an SMC population / result with unequal weights; distinct by input')
     trusted = ('numpy.fft autocovariance in eff_sample_size is compared with the direct lag sum of the model within 1e-6 (oracle)',
                'binary64 vs exact rationals: means within 1e-9 (exactly on dyadic inputs), R-hat^2 / ESS within 1e-6; quantile levels '
                'closer than 1e-9 to a cumulative-weight boundary are not queried unless the arithmetic is exact',
                'pickle/json/csv round trips are differential tests on the python side only (no theorem)',
+               'histories: rebinding an attribute and writing into the stored array are the same transition of the model (the state is the value '
+               'of .samples / .weights); the comparison with a freshly constructed Sample is python-side (quantiles and array entries bit-equal, '
+               'means within 1e-12 relative), its Coq counterpart is theorem C16_history_fresh; the SMC runs use harness/rejmodels.py and the '
+               'native client, runs that do not finish (singular covariance / all weights zero) are counted and skipped',
                'scale sweep of the diagnostics: exact Fraction re-implementation of the textbook R-hat^2 / ESS formulas in harness/c16.py '
                '(_exact_diag) is the reference for the copies s*(x+c); the Coq clauses ok/agree see the chains as given (unit, tiny and huge) '
                'and one affine copy per case; R-hat and ESS are dimensionless, so all tolerances on them are scale-free')
@@ -78,20 +92,18 @@ class C16(PropCheck):
         r = self.rng
         q = self.tier == 'quick'
         n_sample, n_bolfi, n_diag, n_bad = (260, 220, 240, 80) if q else (3200, 2600, 2400, 900)
-        n_hist, n_smc = (220, 14) if q else (2600, 160)
-        for _ in range(n_sample):
-            yield self.gen_sample()
-        for _ in range(n_hist):
-            yield self.gen_hist()
-        for _ in range(n_smc):
-            for c in self.gen_smc():
-                yield c
-        for _ in range(n_bolfi):
-            yield self.gen_bolfi()
-        for j in range(n_diag):
-            yield self.gen_diag(j)
-        for _ in range(n_bad):
-            yield self.gen_malformed()
+        n_hist, n_smc = (160, 10) if q else (1600, 100)
+        groups = [[self.gen_sample() for _ in range(n_sample)],
+                  [self.gen_bolfi() for _ in range(n_bolfi)],
+                  [self.gen_diag(j) for j in range(n_diag)],
+                  [self.gen_malformed() for _ in range(n_bad)],
+                  [self.gen_hist() for _ in range(n_hist)],
+                  [c for _ in range(n_smc) for c in self.gen_smc()]]
+        # the kinds are interleaved evenly (costly and cheap cases spread over the Coq case files); the order inside a kind is
+        # kept, so the cases of one SMC run follow each other among the SMC cases and the run is executed once
+        order = sorted((i / len(g), gi, i) for gi, g in enumerate(groups) for i in range(len(g)))
+        for _, gi, i in order:
+            yield groups[gi][i]
 
     def gen_sample(self, bad=None):
         r = self.rng
@@ -163,7 +175,7 @@ class C16(PropCheck):
         straight away (what SMC._extract_population does: unweighted population, then sample.weights = w)."""
         r = self.rng
         k = r.randint(1, 4)
-        n = r.choice([2, 3, 4, 4, 5, 7, 8, 8, 11, 16, 40])
+        n = 40 if r.random() < 0.05 else r.choice([2, 3, 4, 4, 5, 7, 8, 8, 11, 16, 16, 25])
         names = r.sample(NAMES, k)
         extra = r.sample([x for x in NAMES if x not in names], r.randint(0, 2))
         keys = names + extra + ['d']
@@ -225,7 +237,7 @@ class C16(PropCheck):
                     cur_cols[name] = new
                 self.bump('hist:op=%s/%s' % (kind if kind != 'w_bad' else 'w_bad_' + op['bad'], op['how']))
                 ops.append(op)
-            alphas = [0.5, 0.025, 0.975, 0.0, 1.0, r.choice([0.25, 0.75, 0.125, 0.0625]), r.random()]
+            alphas = [0.025, 0.975, r.choice([0.0, 1.0]), r.choice([0.5, 0.25, 0.75, 0.125, 0.0625]), r.random()]
             steps.append(dict(ops=ops, alphas=alphas))
         self.bump('hist:' + cls)
         self.bump('hist:initial_weights=' + w0)
@@ -528,12 +540,13 @@ class C16(PropCheck):
 
     def _fresh_diffs(self, s, names, alphas, cols, w):
         """the summaries of the object under test next to those of a Sample constructed NOW from the harness's own record of
-        the current columns and weights: selected values (quantiles, array entries) bit-equal, means within 1e-12 relative"""
+        the current columns and weights: selected values (quantiles, array entries) bit-equal, means within 1e-12 of the data scale"""
         from elfi.methods.results import Sample
         fresh = Sample('fresh', dict((nm, np.array(c, dtype=float)) for nm, c in zip(names, cols)), list(names),
                        weights=None if w is None else np.array(w, dtype=float))
         a, b = self._summaries(s, alphas), self._summaries(fresh, alphas)
         diffs = []
+        scale = max([abs(v) for c in cols for v in c] + [0.0])      # means: 1e-12 relative to the size of the data
         for key in a:
             (sa, va), (sb, vb) = a[key], b[key]
             if sa != sb:
@@ -544,7 +557,7 @@ class C16(PropCheck):
                     continue
                 for (k, x), (_, y) in zip(va, vb):
                     is_mean = key in ('sample_means', 'sample_means_array') or (key == 'sample_means_and_95CIs' and k.endswith('/0'))
-                    same = (x == y) or (x != x and y != y) or (is_mean and abs(x - y) <= 1e-12 * max(abs(x), abs(y)))
+                    same = (x == y) or (x != x and y != y) or (is_mean and abs(x - y) <= 1e-12 * max(abs(x), abs(y), scale))
                     if not same:
                         diffs.append('%s[%s] = %r on the object, %r on a fresh Sample with the same samples and weights' % (key, k, x, y))
                         break
@@ -809,11 +822,21 @@ class C16(PropCheck):
                     ('SMC %s' % ('result' if case['pop'] < 0 else 'population %d' % case['pop']))
                 for clause, msg in self._consistency(o):
                     fails.append((clause, '%s: %s' % (where, msg)))
-                for d in o['fresh'][:3]:
+                for d in o['fresh'][:1]:
                     fails.append(('summary_of_current_state', '%s: %s' % (where, d)))
-                for d in o['readback']:
+                for d in o['readback'][:1]:
                     fails.append(('attribute_readback', '%s: %s does not read back the assigned value' % (where, d)))
-            return fails
+            # a summary that ignores an assignment fails on most histories: list every clause at most MAX_REPEAT times per run
+            # (the driver writes one replay file per distinct message), count the rest in the histogram
+            kept = []
+            seen = self.__dict__.setdefault('_hist_reported', {})
+            for clause, msg in fails:
+                seen[(case['kind'], clause)] = seen.get((case['kind'], clause), 0) + 1
+                if seen[(case['kind'], clause)] <= MAX_REPEAT:
+                    kept.append((clause, msg))
+                else:
+                    self.bump('%s:repeat_failures_not_listed:%s' % (case['kind'], clause))
+            return kept
         fails.extend(self._consistency(out))
         if case['kind'] == 'bolfi':
             if not out.get('chains_kept'):
@@ -952,9 +975,9 @@ class C16(PropCheck):
             quant = list(o['quant'])
             if o['ci'] is not None:
                 more.append([[k, v[0]] for k, v in o['ci']])
-                for al, idx in ((0.025, 1), (0.975, 2)):
-                    if any(a2 == al for a2, _ in o['quant']):          # the level is away from every cumulative-weight boundary
-                        quant.append([al, [[k, v[idx]] for k, v in o['ci']]])
+                # the 2.5% / 97.5% ends of sample_means_and_95CIs take the place of sample_quantiles(0.025 / 0.975) (py_check
+                # clause ci_quantiles: the two are bit-equal) when the level is away from every cumulative-weight boundary
+                quant = [[al, ([[k, v[1 if al == 0.025 else 2]] for k, v in o['ci']] if al in (0.025, 0.975) else qs)] for al, qs in quant]
             numbers = [v for ms in more for _, v in ms] + ([v for _, v in o['means']] if o['means'] is not None else [])
             if not all(math.isfinite(v) for v in numbers):
                 self.bump('hist:skipped_nonfinite_mean')
